@@ -22,6 +22,7 @@ def run(run):
     run.level_override = "other"
     decision_table(run)
     cell_codec(run)
+    header_codec(run)
     bounded(run)
 
 
@@ -94,24 +95,72 @@ def cell_codec(run):
     truthy = ("yes", "true", "t", "1", "YES", "True", "T", "tRuE")
     falsy = ("no", "false", "f", "0", "", "2", "y", "on", "None")
     run.exact("_parse_scsv_bool: exactly yes/true/t/1 (case-insensitive) are true", f"{MOD}._parse_scsv_bool", all(b(x) is True for x in truthy) and all(b(x) is False for x in falsy) and b(True) is True and b(False) is False, "")
-    p = IO._parse_scsv_cell
+    _p = IO._parse_scsv_cell
+    raised = []
+
+    def p(func, data, missingstr=None, fillval=None):
+        try:
+            return _p(func, data, missingstr=missingstr, fillval=fillval)
+        except Exception as e:  # the code under contract raised on a valid cell: that refutes the table entry
+            raised.append(f"({func.__name__}, {data!r}, marker {missingstr!r}, fill {fillval!r}) raised {type(e).__name__}")
+            return raised
+
     ok = True
-    for func, fill, typed in ((int, "7", 7), (float, "1.5", 1.5), (str, "N/A", "N/A"), (str, "", ""), (complex, "1+2j", 1 + 2j)):
+    for func, fill, typed in ((int, "7", 7), (float, "1.5", 1.5), (str, "N/A", "N/A"), (str, "", ""), (complex, "1+2j", 1 + 2j), (int, 0, 0), (float, 0.0, 0.0), (complex, 0j, 0j), (int, -3, -3)):
         for miss in ("-", "", "NA"):
             for pad in ("", " ", "  "):
                 ok = ok and p(func, pad + miss + pad, missingstr=miss, fillval=fill) == typed
     ok = ok and math.isnan(p(float, "-", missingstr="-", fillval="NaN")) and isinstance(p(complex, "-", missingstr="-", fillval="NaN"), complex)
     ok = ok and p(int, " 42 ", missingstr="-", fillval="0") == 42 and p(float, "inf", missingstr="-", fillval="0") == float("inf") and p(str, " x y ", missingstr="-", fillval="") == "x y"
     ok = ok and p(bool, "True", missingstr="-", fillval="") is True and p(bool, "False", missingstr="-", fillval="") is False
-    run.exact("_parse_scsv_cell: marker -> typed fill (NaN for a 'NaN' fill), booleans through the boolean codec, otherwise the stripped token through the type", fn, ok, "finite table over types x markers x padding")
+    run.exact("_parse_scsv_cell: marker -> typed fill (NaN for a 'NaN' fill), booleans through the boolean codec, otherwise the stripped token through the type", fn, bool(ok) and not raised,
+              "; ".join(raised[:3]) or "finite table over types x markers (incl. the empty marker) x padding x string/typed fills")
     bad = True
     for func, tok in ((int, "1.5"), (int, "x"), (float, "1,5"), (complex, "1+2i")):
         try:
-            p(func, tok, missingstr="-", fillval="0")
+            _p(func, tok, missingstr="-", fillval="0")
             bad = False
         except ValueError:
             pass
     run.exact("_parse_scsv_cell: an unparseable token raises ValueError (turned into SCSVError by save_scsv)", fn, bad, "")
+
+
+def header_codec(run):
+    """write_scsv_header / the YAML loader as a codec of the schema: the header written for a valid schema loads back (through the
+    loader read_scsv uses) to a schema with the same delimiter, marker, names, types, units, and fills that decode to the same
+    typed value -- for string and typed fills, zero-valued ones included (finite table on the real function)."""
+    import io as _io
+
+    import yaml
+
+    IO = real_module(MOD)
+    fn = f"{MOD}.write_scsv_header"
+    conv = {"string": str, "integer": int, "float": float, "complex": complex, "boolean": IO._parse_scsv_bool}
+    table = {"string": ["", "N/A", "x y", "0", 0], "integer": ["0", "-1", 0, -1, 7], "float": ["NaN", "0.0", "inf", 0.0, -1.0, 1.5, float("nan")],
+             "complex": ["NaN", "0j", "1+2j", 0j, 1 + 2j], "boolean": ["", False, True]}
+    bad = []
+    n = 0
+    for delim, missing in ((",", "-"), (";", ""), ("\t", "NA")):
+        for t, fills in table.items():
+            for fill in fills:
+                n += 1
+                schema = {"delimiter": delim, "missing": missing, "fields": [{"name": "a", "type": t, "fill": fill, "unit": "m/s"}, {"name": "b", "type": "string"}]}
+                buf = _io.StringIO()
+                try:
+                    IO.write_scsv_header(buf, schema)
+                    lines = [ln[2:] if ln.startswith("# ") else ln.lstrip("#") for ln in buf.getvalue().splitlines() if ln.strip() != "---"]
+                    back = yaml.safe_load("\n".join(lines))
+                    back = back.get("schema", back)
+                    f0 = back["fields"][0]
+                    want = conv[t](np.nan if (t in ("float", "complex") and fill == "NaN") else fill)
+                    got_raw = f0.get("fill", "")
+                    got = conv[t](np.nan if (t in ("float", "complex") and got_raw == "NaN") else got_raw)
+                    same = got == want or (isinstance(want, (float, complex)) and want != want and got != got)
+                    if not (back["delimiter"] == delim and back["missing"] == missing and f0["name"] == "a" and f0.get("type") == t and f0.get("unit") == "m/s" and same and back["fields"][1]["name"] == "b"):
+                        bad.append(f"{t} fill {fill!r}: header loads back as {f0!r}")
+                except Exception as e:
+                    bad.append(f"{t} fill {fill!r}: {type(e).__name__}: {str(e)[:60]}")
+    run.exact(f"write_scsv_header: the written header loads back to the same schema; fills decode to the same typed value [{n} (delimiter, marker, type, fill) cases incl. typed zero fills]", fn, not bad, "; ".join(bad[:3]))
 
 
 # ----------------------------------------------------------------------------- bounded: real round trips
@@ -182,18 +231,20 @@ def nat_roundtrip(seed, count):
                 col = [c if c != missing else fill for c in col]
             elif t == "integer":
                 fill = str(rng.choice(["0", "-1", "999999"]))
-                fld["fill"] = fill
+                fld["fill"] = fill if rng.random() < 0.7 else int(fill)
                 col = [int(rng.choice([0, -1, 999999, 7, -(10 ** 18), 10 ** 30, int(rng.integers(-1000, 1000))])) for _ in range(nrows)]
             elif t == "float":
                 fill = str(rng.choice(["NaN", "0.0", "-1.0", "nan", "inf"]))
-                fld["fill"] = fill
+                fld["fill"] = fill if (rng.random() < 0.7 or fill in ("nan", "inf")) else float(fill)
                 col = [float(rng.choice([0.0, -1.0, float("nan"), float("inf"), float("-inf"), 1e-300, 1.5, rng.normal() * 1e10, 0.1 + 0.2])) for _ in range(nrows)]
             elif t == "boolean":
                 col = [bool(rng.integers(2)) for _ in range(nrows)]
                 fill = ""
+                if rng.random() < 0.3:
+                    fld["fill"] = bool(rng.integers(2))
             else:
                 fill = str(rng.choice(["NaN", "0j", "1+2j"]))
-                fld["fill"] = fill
+                fld["fill"] = fill if (rng.random() < 0.7 or fill == "NaN") else complex(fill)
                 col = [complex(rng.choice([0j, 1 + 2j, complex(rng.normal(), rng.normal()), complex(float("nan"), 0), complex(float("inf"), -1.5)])) for _ in range(nrows)]
             if rng.random() < 0.3:
                 fld["unit"] = str(rng.choice(["m/s", "GPa"]))  # (a unit such as "%" is written unquoted and breaks the YAML header: outside C16, noted in DESIGN)
